@@ -242,6 +242,11 @@ def make_batch(rng, lang, nsent=None, nbest=None, awkward=0.4, exclude='', licen
     for s in range(nsent):
         n = rng.randint(1, maxlen)
         words = words_for(rng, n, awkward, exclude)
+        twin = None
+        if n >= 2 and rng.random() < 0.2:
+            # the same token twice in one sentence ("the dog sees the dog"): equal in every attribute, two positions all the same
+            twin = tuple(rng.sample(range(n), 2))
+            words[twin[1]] = words[twin[0]]
         k = nbest or rng.randint(1, 3)
         trees = []
         toks = None
@@ -256,6 +261,8 @@ def make_batch(rng, lang, nsent=None, nbest=None, awkward=0.4, exclude='', licen
             # all n-best trees of a sentence are over the same token objects' values
             lv = leaves_of(t)
             if toks is None:
+                if twin:
+                    lv[twin[1]]['tok'] = dict(lv[twin[0]]['tok'])
                 toks = [x['tok'] for x in lv]
             else:
                 for x, tk in zip(lv, toks):
@@ -279,7 +286,8 @@ def real_batch(batch, rng=None):
         # as in parser output, the n-best trees of a sentence share their Token objects (in two of three batches)
         shared = [] if (rng is None or rng.random() < 0.67) else None
         for t in trees:
-            sc -= 0.125 * (1 + (rng.randrange(8) if rng else 1))
+            # non-increasing: now and then two derivations of a sentence have the same score
+            sc -= 0.125 * ((0 if (lst and rng.random() < 0.2) else 1 + rng.randrange(8)) if rng else 1)
             lst.append(ScoredTree(tree=build_real(t, shared), score=sc))
         out.append(lst)
     return out
